@@ -323,7 +323,7 @@ func runC21(c *Ctx) {
 		c.verdictIf(good, P, "neg", "fn=(*AttrCache).PutNegative enabled-edge", p.pos(pn.Pos()), "stores only when negative caching is enabled", "negative entries can be created while negative caching is disabled")
 	}
 	if ind := p.Fn("(*AttrCache).InvalidateNegativeInDir"); ind != nil {
-		good := false
+		good, unguarded := false, false
 		isChild := p.Fn("isChildOf")
 		for _, b := range ind.Blocks {
 			for _, in := range b.Instrs {
@@ -331,7 +331,21 @@ func runC21(c *Ctx) {
 				if !ok {
 					continue
 				}
-				if bi, ok := call.Call.Value.(*ssa.Builtin); ok && bi.Name() == "append" {
+				bi, isB := call.Call.Value.(*ssa.Builtin)
+				if !isB {
+					continue
+				}
+				// the selecting step: the append that collects a key, or a delete keyed directly by the map
+				// iteration (single-pass form)
+				selecting := bi.Name() == "append"
+				if bi.Name() == "delete" && len(call.Call.Args) == 2 {
+					if ex, isEx := unwrap(call.Call.Args[1]).(*ssa.Extract); isEx {
+						if _, isNext := ex.Tuple.(*ssa.Next); isNext {
+							selecting = true
+						}
+					}
+				}
+				if selecting {
 					negOK, childOK := false, false
 					for _, f := range p.facts(b) {
 						if _, fld, ok := fieldLoad(f.V); ok && fld != nil && fld.Name() == "isNegative" && f.Val {
@@ -345,10 +359,13 @@ func runC21(c *Ctx) {
 					}
 					if negOK && childOK {
 						good = true
+					} else {
+						unguarded = true
 					}
 				}
 			}
 		}
+		good = good && !unguarded
 		c.verdictIf(good, P, "neg", "fn=(*AttrCache).InvalidateNegativeInDir selection", p.pos(ind.Pos()), "selects isNegative && isChildOf(path, dir)", "InvalidateNegativeInDir does not select exactly the negative entries that are direct children of the directory")
 	}
 	runC21NegScan(c)
